@@ -25,6 +25,7 @@ TECHNIQUE = 'small-scope exhaustive enumeration of typed values plus explicit-st
 RULE += ' After loading, the stored cell DAG must be structurally unchanged (reading is not writing - e.g. continuation cells of a snake string) and a second reader of the same cell must get the same values.'
 ASSUMPTIONS = ['interior values of wide integers are represented by boundary values; all widths and length classes are complete']
 NOT_ASSERTED = ['addr_var (MsgAddressInt$11): the library refuses it explicitly', 'integer width 0 (the property quantifies widths 1..257)']
+RULE += ' Sixth session: address routes (Address.to_cell, the copy constructor; with and without anycast), address-text histories (the first object parsed from a text is edited by the caller, the text is used again), failing peeks (9 malformed / cut-off fields x 13 preload_* calls x refs x offsets: whatever the peek does, the slice is afterwards what it was).'
 
 
 def BOUNDS(tier):
